@@ -189,7 +189,7 @@ theorem step_excl (n : Nat) (s s' : LSt) (l : LLabel) (h : lstep n s l = some s'
     split at h
     · rename_i hlt
       simp only [lstepCore] at h; cases h
-      exact ⟨excl_updI_sub s i _ he (fun p hp => hp) rfl (Or.inr (Or.inl rfl)),
+      exact ⟨excl_updI_sub s i _ he (fun p hp => hp) rfl (Or.inl rfl),
         fun j hj => by have hne : j ≠ i := by omega
                        simp only [updI_other _ _ _ _ hne]; exact hin j hj⟩
     · cases h
